@@ -694,6 +694,14 @@ func genSigops(g *core.Gen, r *core.Rand) {
 			t.TxOut = append(t.TxOut, &wire.TxOut{Value: 1, PkScript: pk})
 		}
 		cb := r.Chance(1, 8)
+		if cb && r.Bool() {
+			// a real coinbase (null outpoint) whose own scripts carry sigops
+			t.TxIn = t.TxIn[:1]
+			us = us[:1]
+			t.TxIn[0].PreviousOutPoint = wire.OutPoint{Index: 0xffffffff}
+			t.TxIn[0].SignatureScript = append([]byte{0x02, 0x11, 0x22}, randScript(r, 4, false)...)
+			t.TxOut = append(t.TxOut, &wire.TxOut{Value: 1, PkScript: []byte{0x51, 0xae, 0xac}})
+		}
 		g.Case("sigop-cost", true, fmt.Sprintf("C13 cost %s %s %s %s %s", txTok(t), b01(cb), b01(r.Chance(4, 5)), b01(r.Chance(4, 5)), strings.Join(us, ",")))
 	}
 }
@@ -1274,6 +1282,14 @@ func genSanity(g *core.Gen, r *core.Rand) {
 		default:
 			emit("sanity-valid", root, txs)
 		}
+	}
+	// sigops carried by the coinbase itself (signature script and outputs) count like any other
+	for _, c := range []int{19990, 19998, 19999} {
+		txs := mk(2)
+		txs[0].TxIn[0].SignatureScript = []byte{0x02, 0xac, 0xac, 0xac} // push of two bytes, then one CHECKSIG
+		txs[0].TxOut = append(txs[0].TxOut, &wire.TxOut{Value: 1, PkScript: []byte{0xac}})
+		txs[1] = plainTx(r, c)
+		emit("sanity-sigop-limit-coinbase", txidRoot(txs), txs)
 	}
 	// legacy sigop limit: 4 * count against 80000, single script and spread over transactions
 	for _, c := range []int{19999, 20000, 20001} {
